@@ -581,6 +581,19 @@ pub fn gen_garbage(rng: &mut Rng) -> String {
             _ => format!("echo{} x q", b(rng)),
         };
     }
+    if rng.chance(1, 12) {
+        // A long token with multi-byte characters at assorted byte offsets (code that quotes or
+        // shortens the offending text must cut at character boundaries)
+        let n = 20 + rng.usize_below(50);
+        let token: String = (0..n).map(|_| *rng.pick(&['a', 'Z', '9', '_', 'é', 'ü', '°', '→', '😀', 'x'])).collect();
+        return match rng.below(5) {
+            0 => token,
+            1 => format!("print {}", token),
+            2 => format!("move r1 {}", token),
+            3 => format!("goto {}+1", token),
+            _ => format!("break add {}", token),
+        };
+    }
     match rng.below(10) {
         0..=2 => invalid_integer_line(rng),
         3 | 4 => misspelled_name_line(rng),
@@ -709,13 +722,18 @@ pub fn gen_item(rng: &mut Rng, ctx: &Ctx, mix: &Mix) -> Cmd {
         10 if rng.chance(1, 12) => {
             // A very long command line whose tail looks like commands
             let mut text = "long".to_string();
-            let n = 1000 + rng.usize_below(200);
+            let n = *rng.pick(&[1000usize, 1000, 4080, 8180]) + rng.usize_below(200);
             while text.len() < n {
                 let piece: &str = *rng.pick(&[" aaaa", " bb", " c", " x3000", " move r1 7", " z", " q"]);
                 text.push_str(piece);
             }
             Cmd::Echo(text)
         }
+        10 if rng.chance(1, 8) => Cmd::Echo(
+            // Backslash sequences are ordinary characters of the command language
+            rng.pick(&["first\\nmove r1 7", "a\\tb", "x\\", "\\n", "one\\nreset", "c:\\new\\table", "\\x41 \\n q"])
+                .to_string(),
+        ),
         10 => Cmd::Echo(
             rng.pick(&["hello", "a  b", "step", "x3000 ^ r1", "é!", "é é x", "grüü z", "ñ ñ c", "ü", "→→ s", "😀 q", "日本語 exit", "ééé reset"])
                 .to_string(),
